@@ -106,17 +106,17 @@ def valid_inventory(ck, prog, config, clause):
                 return False
             return True
         patterns = [
-            ('len0', lambda op, lp, rp, l, r, rule, ctx: op == '==' and lp.endswith('->length') and const_value(r) == 0),
-            ('lookup-hit', lambda op, lp, rp, l, r, rule, ctx: op == '!=' and const_value(r) == 0 and lp == 'f'),
-            ('len-equal', lambda op, lp, rp, l, r, rule, ctx: op == '==' and lp.endswith('->length') and
-             rp.endswith('->length') and lp != rp),
+            ('len0', lambda op, lp, rp: op == '==' and lp.endswith('->length') and rp == '#0'),
+            ('lookup-hit', lambda op, lp, rp: op == '!=' and rp == '#0' and lp == 'f'),
+            ('len-equal', lambda op, lp, rp: op == '==' and lp.endswith('->length') and
+             rp.endswith('->length') and lp != rp and set([lp.split('->')[0], rp.split('->')[0]]) == set(['f', 'tgt_idx'])),
         ]
         req_by_fn = {
             'validate_checksums': ['len0'],                  # the empty dictionary entry has nothing to hash
             'zck_find_matching_chunks': ['lookup-hit', 'len-equal'],   # match marking (C08-c)
         }
         req = req_by_fn.get(fn.name)
-        rule = ValidRule(prog, fn, patterns, assign_req=[])
+        rule = ValidRule(prog, fn, patterns, assign_req=[], vocab=('length', 'valid', 'f'))
         rule.viol_sites = []
 
         def on_assign(ctx, lhs, rhs, op, value, ts, rule=rule, fn=fn, req=req):
@@ -148,26 +148,44 @@ def valid_inventory(ck, prog, config, clause):
 
 # ------------------------------------------------------------------ C08 guards
 
-def hash_find_args(prog, fn, out_var):
-    """Arguments of the HASH_FIND invocations inside fn that deliver into out_var."""
+def hash_find_args(prog, fn, out_var, depth=1):
+    """Arguments of the HASH_FIND invocations inside fn (or, when fn has none, inside the static
+    helpers of the same unit that fn calls) that deliver into out_var.  Helper formals are renamed
+    to the actual argument paths."""
     res = []
     for line, args in macro_invocations(repo_path(fn.unit), 'HASH_FIND'):
-        if fn.line <= line <= fn.endline and len(args) == 5 and args[4] == out_var:
+        if fn.line <= line <= fn.endline and len(args) == 5 and (out_var is None or args[4] == out_var):
             res.append((line, args))
+    if not res and depth > 0:
+        import re
+        for c, fs, exs in prog.callgraph()[fn.qname]:
+            for t in fs:
+                if t.static and t.unit == fn.unit:
+                    sub = hash_find_args(prog, t, None, depth - 1)
+                    bind = dict((p.op, pstr(a, unique_defs(fn))) for p, a in zip(t.params, c.a[1:]))
+                    for line, a in sub:
+                        a2 = []
+                        for x in a:
+                            m = re.match(r'^([A-Za-z_][A-Za-z0-9_]*)(.*)$', x)
+                            if m and m.group(1) in bind:
+                                x = bind[m.group(1)] + m.group(2)
+                            a2.append(x)
+                        res.append((line, a2))
     return res
 
 
 def copy_guard(ck, prog, config, clause):
     fn = prog.need_func('zck_copy_chunks')
     patterns = [
-        ('hit', lambda op, lp, rp, l, r, rule, ctx: op == '!=' and const_value(r) == 0 and lp == 'f'),
-        ('length', lambda op, lp, rp, l, r, rule, ctx: op == '==' and set([lp, rp]) == set(['f->length', 'tgt_idx->length'])),
-        ('comp_length', lambda op, lp, rp, l, r, rule, ctx: op == '==' and set([lp, rp]) == set(['f->comp_length', 'tgt_idx->comp_length'])),
-        ('not-valid', lambda op, lp, rp, l, r, rule, ctx: lp == 'tgt_idx->valid' and (
-            (op == '!=' and const_value(r) == 1) or (op == '==' and const_value(r) in (0, -1)) or
-            (op in ('<', '<=') and const_value(r) in (1, 0)))),
+        ('hit', lambda op, lp, rp: op == '!=' and rp == '#0' and lp == 'f'),
+        ('length', lambda op, lp, rp: op == '==' and set([lp, rp]) == set(['f->length', 'tgt_idx->length'])),
+        ('comp_length', lambda op, lp, rp: op == '==' and set([lp, rp]) == set(['f->comp_length', 'tgt_idx->comp_length'])),
+        ('not-valid', lambda op, lp, rp: lp == 'tgt_idx->valid' and (
+            (op == '!=' and rp == '#1') or (op == '==' and rp in ('#0', '#-1')) or
+            (op == '<' and rp == '#1') or (op == '<=' and rp == '#0'))),
     ]
-    rule = GuardRule(prog, fn, patterns, call_req={'write_and_verify_chunk': ['hit', 'length', 'comp_length', 'not-valid']})
+    rule = GuardRule(prog, fn, patterns, call_req={'write_and_verify_chunk': ['hit', 'length', 'comp_length', 'not-valid']},
+                     vocab=('f', 'length', 'comp_length', 'valid'))
     run_rule(prog, fn, rule)
     ck.require(rule.checked >= 1, 'zck_copy_chunks no longer calls write_and_verify_chunk')
     ck.ob(clause, 'R2.guard', fn.name, 'write_and_verify_chunk', not rule.violations,
@@ -178,7 +196,10 @@ def copy_guard(ck, prog, config, clause):
     hf = hash_find_args(prog, fn, 'f')
     ck.require(len(hf) >= 1, 'zck_copy_chunks: HASH_FIND delivering into f not found')
     for line, a in hf:
-        ok = a[0] == 'hh' and a[1].endswith('->ht') and a[2] == 'tgt_idx->digest' and a[3] == 'tgt_idx->digest_size'
+        ok = a[0] == 'hh' and a[1].endswith('ht') and not a[1].endswith('htuncomp') and a[2] == 'tgt_idx->digest' and \
+            a[3] == 'tgt_idx->digest_size'
+        if len(hf) > 1 and a[0] == 'hhuncomp':
+            continue   # shared helper serving both tables: the compressed-table invocation is the one used here
         ck.ob(clause, 'R8.lookup', fn.name, 'HASH_FIND', ok,
               'lookup HASH_FIND(%s): keyed by the target chunk digest over digest_size in the compressed-digest table'
               % ', '.join(a), fn.file, line, config=config)
@@ -288,28 +309,24 @@ def mismatch_arm(ck, prog, config, clause, fn_name, verdict, fail_after, clause_
 def arming_guard(ck, prog, config, clause):
     fn = prog.need_func('dl_write_range')
     patterns = [
-        ('not-valid', lambda op, lp, rp, l, r, rule, ctx: lp.endswith('tgt_chk->valid') and (
-            (op == '!=' and const_value(r) == 1) or (op == '==' and const_value(r) in (0, -1)))),
-        ('comp_length', lambda op, lp, rp, l, r, rule, ctx: op == '==' and
+        ('not-valid', lambda op, lp, rp: lp.endswith('tgt_chk->valid') and (
+            (op == '!=' and rp == '#1') or (op == '==' and rp in ('#0', '#-1')))),
+        ('comp_length', lambda op, lp, rp: op == '==' and
          set([lp, rp]) == set(['chk->comp_length', 'tgt_chk->comp_length'])),
-        ('at-start', lambda op, lp, rp, l, r, rule, ctx: op == '==' and set([lp, rp]) == set(['dl->dl_chunk_data', 'chk->start'])),
+        ('at-start', lambda op, lp, rp: op == '==' and set([lp, rp]) == set(['dl->dl_chunk_data', 'chk->start'])),
+        ('digest', lambda op, lp, rp: op == '==' and rp == '#0' and lp in (
+            'memcmp(chk->digest,tgt_chk->digest,chk->digest_size)', 'memcmp(tgt_chk->digest,chk->digest,chk->digest_size)',
+            'memcmp(chk->digest,tgt_chk->digest,tgt_chk->digest_size)',
+            'memcmp(tgt_chk->digest,chk->digest,tgt_chk->digest_size)')),
+        ('tgt-clear', lambda op, lp, rp: (lp == 'dl->tgt_check' and op == '==' and rp == '#0') or
+         (lp == 'set_chunk_valid(dl)' and op == '!=' and rp == '#0')),
     ]
 
     class Arming(GuardRule):
         def guard_edge(s, ctx, node, label, refined, ts):
             for expr, origins, before, after in refined:
-                if 'memcmp' in origin_names(origins) and after == Z:
-                    ex = strip_transparent(expr)
-                    if ex.k == 'call':
-                        args = [s.P(a) for a in ex.a[1:]]
-                        if set(args[:2]) == set(['chk->digest', 'tgt_chk->digest']) and args[2] in (
-                                'chk->digest_size', 'tgt_chk->digest_size'):
-                            ts = s.add_fact(ts, 'digest', ('chk', 'tgt_chk'))
                 if 'set_chunk_valid' in origin_names(origins) and after & ~(P1 | POS) == 0:
                     ts = s.add_fact(ts, 'tgt-clear', ('dl->tgt_check',))
-            op, l, r = atom_cmp(node.e, label)
-            if s.P(l) == 'dl->tgt_check' and op == '==' and const_value(r) == 0:
-                ts = s.add_fact(ts, 'tgt-clear', ())
             return ts
 
         def guard_assign(s, ctx, lhs, rhs, op, ts):
@@ -335,7 +352,7 @@ def arming_guard(ck, prog, config, clause):
                 pass
             return ts
 
-        def on_return(s, ctx, node, mask, ts):
+        def guard_return(s, ctx, node, mask, ts):
             if ctx.fn is s.fn and 'armed' in ts and 'seeked' not in ts and mask & (P1 | POS):
                 s.violate(ctx, 'armed-no-seek', 'write window armed but a success exit is reached without seeking to '
                           'the chunk\'s offset', inst='seek', node=node)
@@ -344,7 +361,8 @@ def arming_guard(ck, prog, config, clause):
     rule = Arming(prog, fn, patterns, assign_req=[
         ('write_in_chunk', lambda rhs, ctx: rhs is not None and const_value(rhs) != 0, req),
         ('tgt_check', lambda rhs, ctx: rhs is not None and strip(rhs).k != 'null', req + ['tgt-clear']),
-    ])
+    ], vocab=('valid', 'comp_length', 'dl_chunk_data', 'start', 'digest', 'tgt_check', 'memcmp', 'set_chunk_valid'),
+        inline=False)
     run_rule(prog, fn, rule)
     ck.require(rule.checked >= 2, 'dl_write_range: arming stores (write_in_chunk, tgt_check) not found')
     byinst = {}
